@@ -71,11 +71,13 @@ def run(ctx):
         "distinct_nontrivial": len(distinct),
         "rule": "crash points = 8 named step boundaries + file-size limits n (kill by SIGXFSZ in a forked child, or the "
                 "write failing with EFBIG): every n in the header region (+48 bytes) and the last 24 bytes, and "
-                + ("every n in between for outputs up to 40 kB (every ~5th above)" if not ctx.quick()
+                + ("every n in between for the two smallest scenarios (no output / stale output before the build), mean stride 2–13 "
+                   "for the others" if not ctx.quick()
                    else "a random sample in between (mean stride 3 for the smallest scenario, 61/211 for the others)")
                 + "; per scenario (grammar, pre-existing output: none/stale/current, forced, report). "
                   "Counted as distinct non-trivial: distinct observed crash states (length+hash of .rs/.report/.tmp, rewritten flag)",
-        "exhaustive": not ctx.quick(),
+        "exhaustive": False,
+        "exhaustive_scenarios": [] if ctx.quick() else ["small-none", "small-stale", "conflict-stale-report"],
         "scenarios": stats["scenarios"],
         "generator_distribution": stats["hist"],
         "findings_on_real_code": stats["findings"],
